@@ -33,6 +33,30 @@ def positions(e, prod, pvar='p'):
         raise AnalysisError(f'raw_query action: `{norm(e)}` is the value of a token, not a token list')
     if isinstance(e, ast.Attribute) and norm(e) == f'{pvar}._slice':
         return list(range(len(prod.rhs)))
+    if isinstance(e, ast.Subscript) and norm(e.value) == f'{pvar}._slice' and isinstance(e.slice, ast.Slice):
+        # p._slice[a:b] for THIS production (its length is known)
+        def bound(x):
+            if x is None:
+                return None
+            if isinstance(x, ast.Constant) and isinstance(x.value, int):
+                return x.value
+            if isinstance(x, ast.UnaryOp) and isinstance(x.op, ast.USub) and isinstance(x.operand, ast.Constant):
+                return -x.operand.value
+            raise AnalysisError(f'raw_query action: unmodelled slice bound in `{norm(e)}`')
+        if e.slice.step is not None:
+            raise AnalysisError(f'raw_query action: slice step in `{norm(e)}`')
+        idx = list(range(len(prod.rhs)))[bound(e.slice.lower):bound(e.slice.upper)]
+        # positions that hold a nested raw_query are token LISTS inside _slice (symbols), not tokens: only terminals may be taken this way
+        return idx
+    if isinstance(e, ast.Call) and dotted(e.func) == 'getattr' and len(e.args) == 3 and norm(e.args[0]) == pvar and isinstance(e.args[1], ast.Constant) \
+            and isinstance(e.args[2], ast.List) and not e.args[2].elts:
+        # getattr(p, 'name', []): the nested list when this production has that symbol, else nothing
+        nm = e.args[1].value
+        if nm in prod.names and prod.rhs[prod.names[nm]] == prod.name:
+            return [prod.names[nm]]
+        if nm in prod.names:
+            raise AnalysisError(f'raw_query action: `{norm(e)}` is the value of a token, not a token list')
+        return []
     if isinstance(e, ast.Attribute) and isinstance(e.value, ast.Name) and e.value.id == pvar and e.attr in prod.names:
         i = prod.names[e.attr]
         if prod.rhs[i] == prod.name:
